@@ -31,7 +31,10 @@ def run_spec(spec, cap=20000, wall=30, fault=None, sim_class=None):
         if spec.get('reuse_network'):
             # the Network object has already served another (short, unmonitored) Simulation: the monitored one must be as sound
             ciw.seed(spec['seed'] + 1)
-            W = mon.EventCapSim(N, **gen.sim_kwargs(spec))
+            wkw = gen.sim_kwargs(spec)
+            if spec.get('reuse_tracker') and 'tracker' in skw:
+                wkw['tracker'] = skw['tracker']   # the tracker *object* has served another Simulation too (initialise() must reset it)
+            W = mon.EventCapSim(N, **wkw)
             try:
                 W.simulate_until_max_time(min(spec['run'].get('T') or 5.0, 5.0))
             except mon.EventCap:
